@@ -235,7 +235,20 @@ class StaticDimensionRecordStorageManager(DimensionRecordStorageManager):
             if replace:
                 self._db.replace(table, *db_rows.main_rows)
             elif skip_existing:
-                self._db.ensure(table, *db_rows.main_rows, primary_key_only=True)
+                if db_rows.overlap_insert_rows:
+                    # A record that already exists keeps its region, so it
+                    # must keep its overlap rows, too: only add overlap rows
+                    # for the records that are actually inserted.
+                    inserted = [
+                        record
+                        for record, row in zip(records, db_rows.main_rows)
+                        if self._db.ensure(table, row, primary_key_only=True)
+                    ]
+                    db_rows.overlap_insert_rows = self._compute_common_skypix_overlap_inserts(
+                        element, inserted
+                    )
+                else:
+                    self._db.ensure(table, *db_rows.main_rows, primary_key_only=True)
             else:
                 self._db.insert(table, *db_rows.main_rows)
             self._insert_overlaps(
